@@ -412,6 +412,14 @@ def rule_r4(chk, prog):
                         if t.endswith('.id') or t.endswith('.hash') or \
                                 t.startswith(('id(', 'hash(')):
                             src = t
+            elif isinstance(e, ast.Call) and isinstance(
+                    e.func, ast.Attribute) and e.func.attr == 'format' and \
+                    isinstance(e.func.value, ast.Constant):
+                for a in list(e.args) + [k_.value for k_ in e.keywords]:
+                    t = unparse(a)
+                    if t.endswith('.id') or t.endswith('.hash') or \
+                            t.startswith(('id(', 'hash(')):
+                        src = t
             elif isinstance(e, ast.Call) and call_name(e) in (
                     'str', 'Node') and e.args:
                 t = unparse(e.args[0])
